@@ -25,12 +25,12 @@ class C06(ChanSpec):
         return lines
 
     def nontrivial(self, line, answer):
-        if line.split()[1] == "http":
+        if line.split()[1] in ("http", "deadline"):
             return True
         return super().nontrivial(line, answer)
 
     def extra_coverage(self, pairs):
-        d = super().extra_coverage([(l, a) for l, a in pairs if l.split()[1] != "http"])
+        d = super().extra_coverage([(l, a) for l, a in pairs if l.split()[1] not in ("http", "deadline")])
         d["input_distribution"]["http_close_path_runs"] = [l for l, a in pairs if l.split()[1] == "http"]
         return d
 
